@@ -390,6 +390,13 @@ def run(pid, tier, seed, replay=None):
 
     if replay:
         sc = json.load(open(replay))
+        if "ready_case" in sc:
+            import fam_wait
+            rv, _ = fam_wait.run_ready(tier, d, replay_case=sc["ready_case"])
+            for check, c, o in rv:
+                print("VIOLATION property=%s replay=%s check=%s case=%s expected=%s observed=%s %s" % (
+                    pid, replay, check, fam_wait.describe_ready(c), o["want"], o["got"], o["err"]))
+            return 1 if rv else 0
         if "wait_case" in sc:
             import fam_wait
             wv, wk, _ = fam_wait.run_sub(pid, tier, seed, d, replay_case=sc["wait_case"])
@@ -608,6 +615,17 @@ def run(pid, tier, seed, replay=None):
                 print("VIOLATION property=%s replay=%s check=%s case=%s observed=%s" % (
                     pid, path, check, fam_wait.describe(c), "ok at tick %d" % o["rettick"] if o["ok"] else "error: " + o["err"].replace("\n", " | ")))
         nviol += len(seenw)
+        if pid == "C03":
+            # the legacy strategy's readiness rules, case by case (spec/Ready.tla)
+            rv, rcov = fam_wait.run_ready(tier, d)
+            cov["legacy_readiness_sub_family"] = rcov
+            for i, (check, c, o) in enumerate(rv):
+                path = os.path.join(viol_dir, "%s_%d.json" % (check, i + 1))
+                json.dump({"ready_case": c}, open(path, "w"))
+                if i < 20:
+                    print("VIOLATION property=%s replay=%s check=%s case=%s expected=%s observed=%s %s" % (
+                        pid, path, check, fam_wait.describe_ready(c), o["want"], o["got"], o["err"]))
+            nviol += len(rv)
         assumptions.append("wait sub-family: objects live in client-go's fake dynamic client; statuses are published 250 ms apart; a wait that "
                            "is expected to end well and reports its own timeout is repeated once, alone and slowly, before it counts")
     if race and (race["races"] or race["panics"]):
